@@ -40,12 +40,12 @@ PROPS = {
             "trivial": lambda op, res: False},
     "C18": {"rule": "xk histories: exhaustive sequences (length <=3 quick, <=4 thorough) over {child normal, child hardened, neuter, path, setnet, zero, string-reparse} applied to every live key from private and public roots, plus random length-30 sequences; all live keys observed after every step.",
             "trivial": lambda op, res: False},
-    "C19": {"shared": ["Prims"], "rule": "rng.key/seed/entropy, ecies.enc, cfb.enc, env.new with crypto/rand.Reader replaced by a logging tape: outputs must equal the Lean tape consumers byte for byte; failing reads; sign before/after RNG consumption.",
+    "C19": {"shared": ["Prims"], "gens": ["C19", "C20"], "rule": "rng.key/seed/entropy, ecies.enc, cfb.enc, env.new with crypto/rand.Reader replaced by a logging tape: outputs must equal the Lean tape consumers byte for byte; failing reads; sign before/after RNG consumption.",
             "trivial": lambda op, res: False},
     "C20": {"shared": ["Prims"], "gens": ["C20", "C03", "C01J"], "rule": "(plus the C03 verify stream: IsValid inherits Signature.Verify) env.new on payloads from a JSON value grammar (quotes, backslashes, control and non-ASCII characters, <>&, nesting, numbers) incl. validity after marshal/unmarshal; env.valid over 3 mime types, every payload character altered, r+-1, s+-1, N-s twin, swapped key, 4 present/absent combinations x valid/malformed hex.",
             "trivial": lambda op, res: False},
     "C09": {"extra": [wrap_search], "gens": ["C09", "C10", "C01", "C01J"], "rule": "field.* ops through build-tag hooks on word vectors at 0/1/prime-word/mask boundaries and magnitude limits, vs the Lean definitions regenerated from bec/field.go.",
             "trivial": lambda op, res: False},
-    "C10": {"rule": "field.normalise/setbytes/putbytes on vectors with value P-1, P, P+1, 2^256-1, carry into bit 256, words at 0/max/prime-word boundaries, vs the regenerated Lean definitions.",
+    "C10": {"gens": ["C10", "C01J", "C05"], "rule": "field.normalise/setbytes/putbytes on vectors with value P-1, P, P+1, 2^256-1, carry into bit 256, words at 0/max/prime-word boundaries, vs the regenerated Lean definitions.",
             "trivial": lambda op, res: False},
 }
